@@ -87,17 +87,21 @@ def adapt_text(run):
 
 
 def filename_scenarios(tier, rng):
-    names = {1: "a1.txt", 2: "a2.txt", 3: "c3.txt", 4: "z4.txt", 5: "n5.dat", 6: "m6.log"}
+    flat = {1: "a1.txt", 2: "a2.txt", 3: "c3.txt", 4: "z4.txt", 5: "n5.dat", 6: "m6.log"}
+    nested = {1: "d1/a1.txt", 2: "d1/b2.txt", 3: "d2/a3.txt", 4: "d3/z4.txt", 5: "d1/n5.dat", 6: "m6.txt"}
     out = []
-    for _ in range(120 if tier == "quick" else 1500):
+    for k in range(120 if tier == "quick" else 1500):
+        names, pattern, dirs = (flat, "*.txt", []) if k % 2 == 0 else (nested, "*/*.txt", ["d1", "d2"])
         order = rng.sample(sorted(names), rng.randint(2, 6))
-        cfg = {"kind": "filenames", "poll": 1, "pattern": "**/*.txt" if False else "*.txt", "files": [names[i] for i in order],
+        cfg = {"kind": "filenames", "poll": 1, "pattern": pattern, "files": [names[i] for i in order], "predirs": dirs,
                "ids": order, "cons": rng.choice(["sync", "future"])}
         sched = ["S"]
-        for k in range(len(order)):
+        if rng.random() < 0.5:
+            sched.append("P")
+        for k2 in range(len(order)):
             if rng.random() < 0.45:
                 sched.append("P")
-            sched.append("C%d" % k)
+            sched.append("C%d" % k2)
         out.append([cfg, sched])
     return out
 
